@@ -5,6 +5,7 @@
      ops  = comma-separated calls over hex strings ("-" = the empty string; "-" alone = empty script):
               S:k:j:v  Set(k, Rule{Key:j, value v})     A:j:v  Append(Rule{Key:j, value v})
               G:k Get   H:k Has   L Len   E Each   M MarshalJSON
+              X:k Each, callback fails at the first rule with Key k   W:v ... with value v
    Output: the observable result of every call, joined by ';'. *)
 open Model
 open Conv
@@ -20,6 +21,7 @@ let robs_s = function
   | ROGet (GPanic _) -> "panic"
   | ROBool b -> bool_s b
   | ROLen n -> string_of_int (int_of_nat n)
+  | ROVisit (kvs, st) -> (if st then "stop:" else "full:") ^ "[" ^ Stdlib.String.concat "|" (Stdlib.List.map pair_s kvs) ^ "]"
   | ROPairs kvs -> "[" ^ Stdlib.String.concat "|" (Stdlib.List.map pair_s kvs) ^ "]"
 
 let parse_rcmd s =
@@ -30,6 +32,8 @@ let parse_rcmd s =
   | ["H"; k] -> RCHas (bytes_of_hex k)
   | ["L"] -> RCLen
   | ["E"] -> RCEach
+  | ["X"; k] -> RCEachStopKey (bytes_of_hex k)
+  | ["W"; v] -> RCEachStopVal (bytes_of_hex v)
   | ["M"] -> RCMarshal
   | _ -> failwith ("bad op " ^ s)
 
